@@ -176,7 +176,7 @@ impl GT
 
 const PI: f64 = std::f64::consts::PI;
 const ANGLES: &[f64] = &[0.0, PI / 2.0, -PI / 2.0, PI, -PI, 7.5, 1e-9, -0.3, 2.0 * PI + 0.25, PI / 4.0, 1.0, -12.75,
-    0.1, 123456789.125, -1e-300, 1e15, -0.0, 2.5, -1.0, 3.0e-5, 1e22, 0.5];
+    0.1, 123456789.125, -1e-300, 1e15, -0.0, 2.5, -1.0, 3.0e-5, 1e22, 0.5, 1e21, -1e21, 1e-7, -1e-9, 5e-324, 0.30000000000000004];
 
 fn gen_angle(rng: &mut SplitMix64) -> f64
 {
@@ -506,6 +506,32 @@ fn registry_cases(out: &mut Out, rng: &mut SplitMix64)
                         let mut b = B::new(nq, 1).g(&lib0("X"), &[0]).m(0, 0, Basis::Z, "Z");
                         for q in 0..nq { b = b.g(&lib1("RY", 0.4 + q as f64), &[q]); }
                         b.cg(&[0], 1, &g, bits).run(out);
+                        // conditional on a two-bit register through a NON-identity permutation of it: b = 2 (only b[1] set);
+                        // control [1, 0] reads bit 0 of the target from b[1]: target 1 fires, target 2 does not
+                        for &target in &[1u64, 2u64]
+                        {
+                            let mut b = B::new(nq, 2).g(&lib0("X"), &[0]).m(0, 1, Basis::Z, "Z");
+                            for q in 0..nq { b = b.g(&lib1("RY", 0.4 + q as f64), &[q]); }
+                            b.cg(&[1, 0], target, &g, bits).run(out);
+                        }
+                        // the conditional overrides of the combinators: the gate inside a conditional composite, loop, Kron
+                        {
+                            let id: Vec<usize> = (0..nb).collect();
+                            let prep = |nq: usize| { let mut b = B::new(nq, 1).g(&lib0("X"), &[0]).m(0, 0, Basis::Z, "Z");
+                                for q in 0..nq { b = b.g(&lib1("RY", 0.4 + q as f64), &[q]); } b };
+                            let comp = GT::Comp("c".into(), nb, vec![(lib0("H"), vec![0]), (g.clone(), id.clone())]);
+                            prep(nq).cg(&[0], 1, &comp, bits).run(out);
+                            let lp = GT::Loop("l".into(), 2, Box::new(GT::Comp("c".into(), nb, vec![(g.clone(), id.clone())])));
+                            prep(nq).cg(&[0], 1, &lp, bits).run(out);
+                            if nb < nq
+                            {
+                                let other = (0..nq).find(|q| !bits.contains(q)).unwrap();
+                                let mut kb = bits.clone(); kb.push(other);
+                                prep(nq).cg(&[0], 1, &GT::Kron(Box::new(g.clone()), Box::new(lib0("T"))), &kb).run(out);
+                                let mut kb2 = vec![other]; kb2.extend(bits.iter().cloned());
+                                prep(nq).cg(&[0], 0, &GT::Kron(Box::new(lib0("T")), Box::new(g.clone())), &kb2).run(out);
+                            }
+                        }
                         // inside a composite on permuted bits
                         let id: Vec<usize> = (0..nb).collect();
                         let comp = GT::Comp("c".into(), nb, vec![(lib0("H"), vec![0]), (g.clone(), id.clone())]);
